@@ -171,6 +171,7 @@ def gen_phase(ctx, cfg, find, stats, bad_preps):
     if not r.ok:
         raise lib.Machinery(f"Quantum_Gen/{cfg} failed:\n{r.error}")
     preps, cases = parse_gen(r)
+    ctx.log(f"{cfg}: TLC enumerated {len(cases)} circuits")
     if not cases:
         raise lib.Machinery(f"Quantum_Gen/{cfg} enumerated nothing")
     circuits = [preps[c["prep"] - 1] + c["ops"] for c in cases]
@@ -300,12 +301,13 @@ def validate_traces(ctx, traces):
 def run(ctx):
     ctx.level = "model_checking"
     # 1. the design: exact laws of the documented matrices, and the state machine's invariants
-    laws = ctx.pick(["QuantumLaws3.cfg", "QuantumLaws.cfg"],
+    laws = ctx.pick(["QuantumLawsQ.cfg"],
                     ["QuantumLaws3.cfg", "QuantumLaws_t.cfg", "QuantumLaws2.cfg"])
     for cfg in laws:
         r = ctx.tlc("QuantumLaws", cfg, timeout=ctx.pick(900, 3000))
         if not r.ok:
             raise lib.Machinery(f"QuantumLaws/{cfg}: a law of the gate semantics fails (specification error):\n{r.error}")
+    ctx.log("laws checked")
     r = ctx.tlc("Quantum", ctx.pick("Quantum.cfg", "Quantum_t.cfg"), coverage=True, timeout=ctx.pick(900, 3000))
     if not r.ok:
         raise lib.Machinery("Quantum.tla invariant violated (specification error):\n" + r.error)
@@ -314,6 +316,7 @@ def run(ctx):
             raise lib.Machinery(f"Quantum.tla: action {act} never taken (vacuous model): {r.coverage}")
     ctx.coverage["model_actions"] = {k: v for k, v in r.coverage.items() if k in ("Gate", "Meas", "Reset")}
 
+    ctx.log("model checked")
     find = Findings()
     stats = {"evaluations": 0, "ops_seen": set(), "nontrivial": set(), "with_measurement": 0, "samples": []}
     bad_preps = set()
@@ -326,9 +329,11 @@ def run(ctx):
         ctx.log(f"depth-2 enumeration done, findings so far {len(find.by_key)}")
     # 3. code -> spec
     rng = random.Random(ctx.seed * 7919 + 20)
-    circs = sample_circuits(rng, alphabet, ctx.pick(240, 4000), ctx.pick(4, 6), len(preps))
+    circs = sample_circuits(rng, alphabet, ctx.pick(100, 4000), ctx.pick(4, 6), len(preps))
     traces = record_traces(ctx, preps, circs)
+    ctx.log(f"{len(traces)} traces recorded")
     verdicts, acc = validate_traces(ctx, traces)
+    ctx.log("traces validated")
     ntr_ok = 0
     for t, v in zip(traces, verdicts):
         stats["evaluations"] += 1
